@@ -83,6 +83,8 @@ func init() {
 			{ID: "C05.R12", Doc: "elements are replaced, never rewritten: scalar wrappers are immutable after construction (= C09.R5), so an element shared with a derived list keeps its value when the other list is written", Run: func(c *Ctx) { c09Immutable(c, "C05.R12") }},
 			{ID: "C05.R9", Doc: "NewListOf(v, n): v is normalised once, before the loop, and that one field is installed n times (n aliases of one element, not n conversions)", Run: c05ListOf},
 			{ID: "C05.R8", Doc: "Reverse moves element i to n-1-i in place (= C17.R2)", Run: func(c *Ctx) { reverseRule(c, "C05.R8") }},
+			{ID: "C05.R13", Doc: "scalars are held by value: parseVal maps every Go type to the constructor of its kind through value-preserving conversions and the constructors wrap their argument unchanged (= C12.R1)", Run: func(c *Ctx) { c.R.Floor("C05.R13", runAs(c, "C05.R13", c12R1, nil), 10) }},
+			{ID: "C05.R14", Doc: "Sort sorts on every call: kind of element 0, typed slice, trusted sort, spine rebuilt from it — no state kept between calls decides whether it runs (= C17.R1)", Run: func(c *Ctx) { c.R.Floor("C05.R14", runAs(c, "C05.R14", c17Sort, nil), 3) }},
 			{ID: "C05.R7", Doc: "PURE: the observers (and SubList, Concat) write nothing pre-existing", Run: func(c *Ctx) {
 				var names []string
 				for _, n := range []string{"Count", "Empty", "Get", "GetObject", "GetList", "GetString", "GetBool", "GetInt", "GetFloat", "TypeOf", "Slice", "Contains", "IndexOf", "SubList", "Concat"} {
@@ -1242,7 +1244,7 @@ func c17Sort(c *Ctx) {
 			}
 			if cd.Truth {
 				kind = c.kindOfType(T)
-				if _, isPtr := T.(*types.Pointer); !isPtr {
+				if _, isPtr := T.(*types.Pointer); !isPtr && (kind == "string" || kind == "int" || kind == "float") {
 					badTest = "kind test is not on a wrapper type"
 				}
 			}
@@ -1255,6 +1257,9 @@ func c17Sort(c *Ctx) {
 		if badTest != "" {
 			ob.Fail("%s", badTest)
 			continue
+		}
+		if kind != "string" && kind != "int" && kind != "float" && p.End == "panic" {
+			kind = "" // element 0 recognised as a kind that is not sortable (a shared kind switch names them all): the rejecting arm
 		}
 		if kind == "" {
 			// no kind matched: must panic without effects
@@ -1382,7 +1387,20 @@ func c17Sort(c *Ctx) {
 				hb = a.X
 			}
 			nc, ok := hb.(TCall)
-			good = ok && nc.Fun != nil && nc.Fun.Name() == "NewListFrom" && len(nc.Args) == 1 && sameTerm(nc.Args[0], sortArg)
+			// sort.IntSlice(xs) and []int(…) of it name the same slice
+			bare := func(t Term) Term {
+				for {
+					cv, ok := t.(TConv)
+					if !ok {
+						return t
+					}
+					if _, isSl := cv.To.Underlying().(*types.Slice); !isSl {
+						return t
+					}
+					t = cv.X
+				}
+			}
+			good = ok && nc.Fun != nil && nc.Fun.Name() == "NewListFrom" && len(nc.Args) == 1 && sameTerm(bare(nc.Args[0]), bare(sortArg))
 		}
 		if !good {
 			ob.Fail("the sorted slice is not rebuilt with NewListFrom(slice) and installed as the RECEIVER's spine (found %s)", c.termStr(handover))
@@ -1394,7 +1412,7 @@ func c17Sort(c *Ctx) {
 		}
 		ob.Ok("%s: %s() -> %s -> receiver.spine = NewListFrom(slice).spine; returns ego", kind, sc.Fun.Name(), "trusted sort")
 	}
-	c.Ob("C17.R1", "(*list).Sort/arms", fd.Pos()).Check(len(arms) == 3 && nPanic == 1, "paths for string, int, float and one panicking path for every other kind", "expected sorting paths for exactly string, int, float plus one panicking path")
+	c.Ob("C17.R1", "(*list).Sort/arms", fd.Pos()).Check(len(arms) == 3 && nPanic >= 1, "paths for string, int, float; every other kind panics", "expected sorting paths for exactly string, int, float plus one panicking path")
 }
 
 func c17Reverse(c *Ctx) { reverseRule(c, "C17.R2") }
